@@ -6,7 +6,26 @@ META = {
     "technique": "Coq proof: invariant over histories relating Buffer{have,len,fresh,out,state} to an abstract byte position, parametric in the block function; differential correspondence model<->impl on histories with the block oracle taken from the implementation, plus the property evaluated directly on the implementation (every apply = data xor key stream of a fresh instance seeked to the absolute position; current_pos = abstract position; seeks of every integer type)",
     "level_text": "Machine-checked theorems of Props/C02.v about Model/ChaChaStream.v (the wrapper as written, after the fix: commits): for the 12-byte-nonce variant and the 64-bit variants, every finite history of try_seek/try_apply_keystream/try_current_pos from a new buffer returns exactly what the abstract position machine returns, with no panic (C02_stream_history_correct, from every reachable state: C02_stream_history_correct_from_reachable; with the real block producers of Model/ChaChaGuts.v and the seven constructors: C02_real_model_history_correct); corollaries C02_rechunk_invariant, C02_reseek_invariant, C02_apply_twice_restores, C02_seek_accepts_in_range (every in-range value of every integer type is accepted, out-of-range values are Err, never a panic). The model is tied to the code by running the same histories on the implementation and on the model inside coqc (vm_compute), in debug and release profiles. Build profile (Model/ChaChaStreamChk.v, Proofs/ChaChaStreamChk.v): a profile-explicit second transcription of the wrapper in which each of the 13 overflow-checked arithmetic sites of rustcrypto_impl.rs panics in Debug and wraps in Release; C02_profile_* theorems: on every reachable state and for every profile it takes none of those panic branches and equals the model above, so m_run_chk prof = m_run for every history (no step panics in either profile). By inspection only: that the inventory of 13 sites is complete and that chk matches rustc's overflow semantics.",
     "level_note": "Trusted: Coq kernel+VM; hand-written model of rustcrypto_impl.rs (tied only on generated histories); the block producers are Section variables specified by blockfn (C14 discharges refill4 = 4 x refill1); harness and case printer. No axioms.",
-    "rule": "cases = histories of {seek::<T>(p), apply(n bytes), current_pos::<T>()} on one of the 7 variants with structured/random key and nonce; positions concentrated at 0, mid-block into block 0, 2^32 blocks, 2^38 bytes, 2^64 bytes; every SeekNum type incl. negative i32 and u128 beyond 2^64; distinct = distinct (variant,key,nonce,ops); non-trivial = applies at least one byte and (has a mid-block seek or more than 3 ops); the harness checks every op against the abstract position and the implementation's own block oracle, then re-runs each history re-chunked, re-seeked and applied twice",
+    "rule": 'cases = histories of {seek::<T>(p), apply(n bytes), current_pos::<T>()} on one of the 7 variants with '
+            'structured/random key and nonce; 6 corpus histories, then boundary-directed histories of 14 kinds assigned '
+            "ROUND-ROBIN (kind = k mod 14; variant and the kind's second selector advance every round), at most 4/5 of "
+            'the run, the rest random, so every configuration (host debug/release 250; forced SSE2, SSE4.1 release, '
+            'forced SSSE3, AVX debug, portable debug/release 100 each) meets all 14 kinds and >= 18 random histories; '
+            'kinds: position 0 with every type; mid-block seeks into block 0; negative / > u64 / top-half-u128 arguments; '
+            'across 2^32 blocks; one past the end through the wide path; seek to the end, past it and FAR past it (2^39, '
+            '3*2^38, 2^38+2^12, 2^63, u64::MAX, 2^64+64) and back; last block pending + failing apply (+ empty apply '
+            'while pending); end of the u64 range; current_pos at type edges; wide path after a mid-block seek; repeated '
+            'failing applies; backward seeks; [new] 2-8 KiB applies from a mid-block seek (8..32 wide iterations in one '
+            'call, twice); [new] 4-5 KiB across 2^32 blocks (IETF: refused whole, then exactly to the end, then one more '
+            'byte refused); random histories: positions concentrated at 0, 2^32 blocks, k*2^32 blocks (k >= 2), 2^38 '
+            'bytes, 2^64 bytes; every SeekNum type incl. negative i32, u128 beyond 2^64 up to 2^128-1, IETF seeks '
+            '2^38+1..2^64 (near, k*2^38, 2^63, u64::MAX); current_pos after refused seeks; 1.2 % of the applies 2-16 KiB; '
+            'distinct = distinct (variant,key,nonce,ops); non-trivial = applies at least one byte and (has a mid-block '
+            "seek or more than 3 ops); the harness checks every op against the abstract position and the implementation's "
+            'own block oracle (fresh instance seeked to the block; a block the oracle cannot produce is a failure, not a '
+            'skip; up to 700 blocks per call), after every refused call current_pos::<u128>() and what a clone of the '
+            'Buffer does next, at the end of every history that a clone of the Buffer continues like the object, then '
+            're-runs each history re-chunked (pieces 1..3 KiB), re-seeked and applied twice',
     "assumptions": ["little-endian host", "cipher 0.3 StreamCipher/StreamCipherSeek provided methods only forward to try_apply_keystream/try_seek/try_current_pos"],
 }
 
@@ -15,19 +34,30 @@ def run(ctx):
     vlib.standard_proof_stage(ctx)
     n = 250 if ctx.quick else 2000
     maxops = 12 if ctx.quick else 30
+    m = max(100, n // 3)
     # (profile, harness features, forced back-end level (hook H1; 0 = the CPU's own detection), label, histories)
     plans = [("debug", (), 0, "histories", n), ("release", (), 0, "histories", n),
              # the narrow (one-block) and the wide (four-block) path use different vector code: a back end on which they
-             # disagree makes the output depend on chunking / seek history (only at some counters)
-             ("release", (), 1, "histories/forced-sse2", max(100, n // 3)),
-             ("release", (), 3, "histories/forced-sse41", max(100, n // 3)),
-             ("debug", ("no_simd",), 0, "histories/portable", max(100, n // 3))]
+             # disagree makes the output depend on chunking / seek history (only at some counters). Every run has the
+             # 14 boundary kinds round-robin and at least a fifth random histories.
+             ("release", (), 1, "histories/forced-sse2", m),
+             ("release", (), 3, "histories/forced-sse41", m),
+             ("debug", (), 2, "histories/forced-ssse3", m),      # debug x forced back end
+             ("debug", (), 4, "histories/forced-avx", m),
+             ("debug", ("no_simd",), 0, "histories/portable", m),
+             ("release", ("no_simd",), 0, "histories/portable", m)]
     for profile, feats, level, label, cnt in plans:
         binary, log = vlib.cargo_build(features=feats, profile=profile, bin_name="h_chacha")
         if binary is None:
             raise vlib.CheckError("harness build failed (%s %s): %s" % (profile, feats, log[-2000:]))
         s = vlib.correspondence(ctx, binary, "hist",
-                                ["--mode", "c02", "--count", cnt, "--maxops", maxops, "--big", 0 if ctx.quick else 1, "--level", level],
+                                ["--mode", "c02", "--count", cnt, "--maxops", maxops, "--big", 0 if ctx.quick else 1, "--level", level,
+                                 "--large-permille", 12 if ctx.quick else 20],
                                 "%s/%s" % (label, profile))
+        ctx.log("%s/%s: %d histories (%s boundary, kinds %s; %s random), longest apply %s bytes, %d disagree, %d direct failures" %
+                (label, profile, s.get("evaluations", 0), s.get("boundary_histories"), s.get("boundary_histories_by_kind"),
+                 s.get("random_histories"), s.get("longest_apply"), len(s["failing"]), len(s.get("direct_failures", []))))
+        if not feats and s.get("backend_level_read_back") != level:
+            raise vlib.CheckError("back-end level %d requested, the harness reports %r" % (level, s.get("backend_level_read_back")))
         vlib.decide_relative(ctx, s, explain="explain_hist", theorem="C02_stream_history_correct",
                              what="Model/ChaChaStream.v run with the implementation's own block oracle")
